@@ -2,12 +2,15 @@
 //! threads, processes, call histories) and of the scanner threads that execute its output.
 
 mod c15;
+mod c16;
 mod c20;
 mod coord;
+mod eval;
 mod gen;
 mod hist;
 mod histcheck;
 mod rng;
+mod sched;
 mod seam;
 mod sexp;
 
@@ -54,6 +57,9 @@ fn real_main() -> i32 {
             if let Some(p) = hist_prop(&args[1]) {
                 return histcheck::check(p, tier, |_| {});
             }
+            if args[1] == "C16" {
+                return c16::check(tier);
+            }
             usage()
         }
         Some("block") if args.len() >= 6 => {
@@ -66,6 +72,18 @@ fn real_main() -> i32 {
                 let br = histcheck::run_block(p, seed, first, count, tier);
                 println!("{}", br.to_json());
                 return 0;
+            }
+            if args[1] == "C16" {
+                return match c16::run_block(seed, first, count, tier) {
+                    Ok(br) => {
+                        println!("{}", br.to_json());
+                        0
+                    }
+                    Err(e) => {
+                        eprintln!("harness error: {e}");
+                        2
+                    }
+                };
             }
             usage()
         }
@@ -86,8 +104,17 @@ fn real_main() -> i32 {
             if let Some(p) = hist_prop(&prop) {
                 return histcheck::replay_file(p, path, expect);
             }
+            if prop == "C16" {
+                return c16::replay_file(path, expect);
+            }
             eprintln!("harness error: replay file names unknown property {prop:?}");
             2
+        }
+        Some("show") if args.len() >= 4 => {
+            let seed: u64 = args[2].parse().unwrap_or(1);
+            let index: u64 = args[3].parse().unwrap_or(0);
+            c16::show_run(seed, index);
+            0
         }
         _ => usage(),
     }
